@@ -37,10 +37,11 @@ type resObs struct {
 	DocURLs  []string  `json:"docurls"`
 	Names    string    `json:"names"`
 	Spell    string    `json:"spell"`
+	Site     string    `json:"site"`
 }
 
 var resFlags struct {
-	layouts, rots, names, spell string
+	layouts, rots, names, spell, site string
 }
 
 func init() {
@@ -50,6 +51,7 @@ func init() {
 			fs.StringVar(&resFlags.rots, "rots", "0", "comma list of rotations")
 			fs.StringVar(&resFlags.names, "names", "special", "name class")
 			fs.StringVar(&resFlags.spell, "spell", "varied", "spelling class")
+			fs.StringVar(&resFlags.site, "site", "", "site of the root document: empty (local file) or http")
 		},
 		expand: func(line []byte) ([][]byte, error) {
 			var nodes []absNode
@@ -66,7 +68,7 @@ func init() {
 				for _, r := range strings.Split(resFlags.rots, ",") {
 					rot, _ := strconv.Atoi(r)
 					c := &expCase{Case: caseCounter, Nodes: nodes, Layout: strings.Split(lay, "+"), Rot: rot,
-						Entry: "Resolve", Names: resFlags.names, Spell: resFlags.spell}
+						Entry: "Resolve", Names: resFlags.names, Spell: resFlags.spell, Site: resFlags.site}
 					out = append(out, mustJSON(c))
 				}
 			}
@@ -220,13 +222,17 @@ func runResolveCase(c *expCase) []*resObs {
 	for _, am := range aims {
 		for _, mode := range []string{"typed", "generic", "location"} {
 			apis := []string{"WithBase"}
+			if am.target == 0 || (len(out)+c.Rot)%3 == 0 {
+				// the same call with ContinueOnError set in the options (an expansion option: resolution is unaffected)
+				apis = append(apis, "WithBase:cont")
+			}
 			if am.kind == "s" && mode != "location" && strings.HasPrefix(am.ref, "#") {
 				apis = append(apis, "ResolveRef")
 			}
 			for _, api := range apis {
 				o := &resObs{Case: c.Case, Layout: c.Layout, Rot: c.Rot, Mode: mode, API: api, Kind: am.kind, RefS: ascii(am.ref),
 					Target: am.target, Docs: docs, Nodes: p.nodes, Abstract: c.Nodes, Concrete: concrete, DocURLs: urls,
-					Names: c.Names, Spell: c.Spell, RootSame: true}
+					Names: c.Names, Spell: c.Spell, Site: c.Site, RootSame: true}
 				o.Ref, _ = parseAURL(am.ref)
 				callResolve(o, am.ref, cc.urls[0], docBytes)
 				out = append(out, o)
@@ -243,7 +249,7 @@ func callResolve(o *resObs, refS, rootURL string, docBytes map[string][]byte) {
 		}
 	}()
 	ld := &recLoader{docs: docBytes, refuse: map[string]bool{}}
-	opts := &spec.ExpandOptions{RelativeBase: rootURL, PathLoader: ld.load}
+	opts := &spec.ExpandOptions{RelativeBase: rootURL, PathLoader: ld.load, ContinueOnError: o.API == "WithBase:cont"}
 	var root interface{}
 	switch o.Mode {
 	case "typed":
